@@ -101,9 +101,14 @@ def run(ctx) -> None:
             for p in normal:
                 stopped = joined = False
                 order_ok = True
+                cleared = False
                 for e in p.evs:
+                    if e.kind == "call" and re.fullmatch(r"self\._emitters\.(clear|difference_update|intersection_update)", e.extra.get("func", "")):
+                        cleared = True
                     if e.kind != "loop":
                         continue
+                    if cleared and "self._emitters" in e.text:
+                        order_ok = False  # iterating the collection after it was emptied: nothing is stopped / joined
                     it = e.text
                     if "self._emitters" not in it:
                         continue
@@ -121,7 +126,7 @@ def run(ctx) -> None:
                 elif not joined:
                     ok, msg = False, f"a normal path of {what} does not join every emitter after stopping it"
                 elif not order_ok:
-                    ok, msg = False, f"{what} joins emitters before stopping them"
+                    ok, msg = False, f"{what} joins emitters before stopping them, or walks the emitter set after emptying it"
             return ok, msg
 
         paths = Enumerator(cfg).run(fa, selfcls=cls)
@@ -144,6 +149,7 @@ VARIANTS = [
     dict(name="B drop emitter.join() in _remove_emitter", expect="fire", rule="C05/stop-and-join", edits=[(API, "        emitter.stop()\n        with contextlib.suppress(RuntimeError):\n            emitter.join()\n\n    def _clear_emitters", "        emitter.stop()\n\n    def _clear_emitters")]),
     dict(name="B drop emitter.stop() in _remove_emitter", expect="fire", rule="C05/stop-and-join", edits=[(API, "        self._emitters.remove(emitter)\n        emitter.stop()\n", "        self._emitters.remove(emitter)\n")]),
     dict(name="B drop join loop in _clear_emitters", expect="fire", rule="C05/stop-and-join", edits=[(API, "        for emitter in self._emitters:\n            with contextlib.suppress(RuntimeError):\n                emitter.join()\n", "")]),
+    dict(name="B emitters cleared before the join loop", expect="fire", rule="C05/stop-and-join", edits=[(API, "        for emitter in self._emitters:\n            with contextlib.suppress(RuntimeError):\n                emitter.join()\n        self._emitters.clear()", "        self._emitters.clear()\n        for emitter in self._emitters:\n            with contextlib.suppress(RuntimeError):\n                emitter.join()")]),
     dict(name="B on_thread_stop no longer unschedules", expect="fire", rule="C05/stop-and-join", edits=[(API, "    def on_thread_stop(self) -> None:\n        self.unschedule_all()", "    def on_thread_stop(self) -> None:\n        pass")]),
     dict(name="B unlocked remove_handler_for_watch", expect="fire", rule="C05/same-lock", edits=[(API, "        with self._lock:\n            self._handlers[watch].remove(event_handler)", "        if True:\n            self._handlers[watch].remove(event_handler)")]),
     dict(name="B re-check against alias bound before the loop", expect="fire", rule="C05/live-recheck", edits=[(API, "            for handler in self._handlers[watch].copy():\n                if handler in self._handlers[watch]:", "            handlers = self._handlers[watch]\n            for handler in handlers.copy():\n                if handler in handlers:")]),
